@@ -6,7 +6,8 @@ Open Scope Z_scope.
 
 (* 2: a transcoded HTTP request was answered with a 5xx status (the scripted target never fails and every binding is valid:
       whatever is wrong with such a request is the client's fault); 501 is the bridge's answer for
-      client-streaming methods over plain HTTP
+      client-streaming methods over plain HTTP; exempt: requests whose body arrives shorter than the announced
+      Content-Length (input field 4) - a failed transmission, not invalid syntax, for which the property names no status
    3: a handler did not return after the client went away
    4: a handler panicked
    5: the response is not well-formed for its protocol *)
@@ -16,7 +17,7 @@ Definition prop_c17 (input impl : val) : option Z :=
   if Z.eqb class 99 then Some 4
   else if Z.eqb class 98 then Some 3
   else if negb (as_bool (nthv 2 impl)) then Some 5
-  else if Z.eqb (as_Z (nthv 0 input)) 1 && (500 <=? status) && negb (Z.eqb status 501) then Some 2
+  else if Z.eqb (as_Z (nthv 0 input)) 1 && (500 <=? status) && negb (Z.eqb status 501) && negb (as_bool (nthv 4 input)) then Some 2
   else None.
 Definition chk_c17 (c : val) : val :=
   match prop_c17 (nthv 0 c) (nthv 1 c) with Some r => verdict_propfail r (VL []) | None => verdict_ok end.
@@ -60,7 +61,13 @@ Definition chk_c12_target (c : val) : val :=
   if as_bool (nthv 0 input) then (if Z.eqb o 2 then verdict_ok else verdict_propfail 6 (VL [VN o]))
   else (if Z.eqb o 1 then verdict_ok else verdict_propfail 6 (VL [VN o])).
 
-(* C11, free-running stress: impl ( violations ) : lookups routed to a target after its Close had returned (or a name not
-   re-watchable after Close returned) *)
+(* C11, free-running stress: impl ( violations flicker mixture )
+   1: lookups routed to a target after its Close had returned (or a name not re-watchable after Close returned)
+   2: a route present in every description of a target that is being re-described was momentarily unroutable
+   3: a lookup returned target / service / method / binding that are not parts of one description *)
 Definition chk_c11_stress (c : val) : val :=
-  if Z.eqb (as_Z (nthv 0 (nthv 1 c))) 0 then verdict_ok else verdict_propfail 1 (VL [nthv 0 (nthv 1 c)]).
+  let impl := nthv 1 c in
+  if negb (Z.eqb (as_Z (nthv 0 impl)) 0) then verdict_propfail 1 (VL [nthv 0 impl])
+  else if negb (Z.eqb (as_Z (nthv 1 impl)) 0) then verdict_propfail 2 (VL [nthv 1 impl])
+  else if negb (Z.eqb (as_Z (nthv 2 impl)) 0) then verdict_propfail 3 (VL [nthv 2 impl])
+  else verdict_ok.
